@@ -132,7 +132,7 @@ func goid() int64 {
 	return -1
 }
 
-var gatedSites = map[string]bool{"src.open": true, "store.openfile": true, "src.read": true, "store.write": true}
+var gatedSites = map[string]bool{"src.open": true, "store.openfile": true, "src.read": true, "store.write": true, "store.remove": true}
 
 // inStat reports whether the caller runs below cache.(*ReadOnlyFS).Stat.
 func inStat() bool {
@@ -178,6 +178,8 @@ func (in *ConcInst) gate(site, name string) error {
 	case "store.write":
 		t.writes++
 		label = "write"
+	case "store.remove":
+		label = "cleanup" // the removal of a failed fill's partial copy
 	}
 	t.at = label
 	in.mu.Unlock()
@@ -335,7 +337,7 @@ func (in *ConcInst) settle() bool {
 		// openers parked in Lock while nobody holds the lock at a gate are in transit (the lock is being handed over)
 		holder := false
 		for _, t := range in.th[1:] {
-			if !t.finished && (t.at == "copyopen" || t.at == "create" || t.at == "read" || t.at == "write") {
+			if !t.finished && (t.at == "copyopen" || t.at == "create" || t.at == "read" || t.at == "write" || t.at == "cleanup") {
 				holder = true
 			}
 		}
